@@ -6,6 +6,7 @@ let () =
   Ad_chan.init ();
   Ad_buffer.init ();
   Ad_callable.init ();
+  Ad_retry.init ();
   let fn_cases = ref 0 and fn_bad = ref 0 in
   let file = Sys.argv.(1) in
   let ic = open_in file in
